@@ -381,8 +381,13 @@ def run_assembly(which, timeout_ms=10000):
                             lo.f.get('items', [])))
                         # lg*[0]: a list of lg zeros
                         el = lo.f.get('items')
-                        zeros = el is None or all(
-                            core.const_of(x) == (True, 0) for x in el)
+                        if el is None:
+                            e_ = lo.f.get('elem', ('unknown',))
+                            zeros = e_[0] == 'const' and core.const_of(
+                                e_[1]) == (True, 0)
+                        else:
+                            zeros = all(core.const_of(x) == (True, 0)
+                                        for x in el)
                         if zeros:
                             st_, model = prove(pc, ln == sy['lg'])
                     add('row:value', st_, 'the block stored is row 0 of the '
